@@ -26,7 +26,9 @@ PROPS = {
     ),
     "C13": dict(
         family="flt",
-        theorems=[],
+        theorems=T("C13", "fmt_assembled", "fmt_fits", "renderText_eq", "format_eq_padded_render", "format_float_eq", "from_double_eq_render", "from_float_eq",
+                   "stream_eq_render", "stream_float_eq", "no_abort", "to_double_flags", "pinned_format_abort_witness", "pinned_from_double_abort_witness",
+                   "pinned_format_eq_padded_render_partial"),
         rule="directed values (+-0, +-inf, NaN with payload/sign variants, subnormal min/max, normal min/max, powers of ten 1e-320..1e308 (float 1e-45..1e38), "
              "nextafter neighbours, the suite's six values) for double and float x {g,f,e,E} x precision {none,0,1,6,17,40,61,62,100} x sign x width {0,10,80} x "
              "alignment {default,<,>} x pad, through ST::format (text route) and ST::format_type with a filled-in format_spec (direct route, incl. negative precision/width "
